@@ -23,7 +23,12 @@ type c02Op struct {
 	K  string `json:"k"` // hdr (N next headers) | blk (next block) | flush | flushgc
 	N  int    `json:"n,omitempty"`
 	In string `json:"in,omitempty"` // blk: flushes INSIDE the block addition (c02inblock.go): P at storeBlock's lock, W in its back-pressure wait, M after the merge
+	D  int    `json:"d,omitempty"`  // fail: N flushes fail (the lower store's PutChangeSet returns an error); the first one hangs inside the store while the next D blocks are added, one more block is added before each further failing flush when B
+	B  bool   `json:"b,omitempty"`
 }
+
+// c02LastFaults: the failing flushes of the last c02Drive: flushes that failed, blocks added while the first of an op hung
+var c02LastFaults struct{ Failed, During, Between int }
 
 // c02Input is the replayable description of one history with its flush schedule.
 //   kind "persist": ordinary block processing (Ops), every batch boundary is a crash point;
@@ -50,7 +55,11 @@ func c02Drive(b *c02Built, in c02Input) (rec *c02Rec, base *c02Store, done []c02
 		return nil, nil, nil, err.Error()
 	}
 	rec = &c02Rec{base: base.st}
-	bc, _, fail := c02Open(rec, in.Cfg, nil)
+	// between the node and the recording store: a store whose PutChangeSet can be held and made to fail (c01fault.go);
+	// the recorder sees the flushes that succeed
+	fs := &c01FaultStore{Store: rec}
+	c02LastFaults.Failed, c02LastFaults.During, c02LastFaults.Between = 0, 0, 0
+	bc, _, fail := c02Open(fs, in.Cfg, nil)
 	if fail != "" {
 		return rec, base, nil, "victim open: " + fail
 	}
@@ -117,6 +126,62 @@ func c02Drive(b *c02Built, in c02Input) (rec *c02Rec, base *c02Store, done []c02
 				if cnt > 0 {
 					done = append(done, c02Op{K: "blk", N: cnt})
 				}
+			case "fail":
+				// in the model a flush that fails is no operation at all: the cache keeps everything, in order
+				n := max(1, op.N)
+				addNext := func() bool {
+					i := bc.BlockHeight() + 1
+					if i > top {
+						return false
+					}
+					if err := bc.AddBlock(b.Blocks[i]); err != nil {
+						panic(fmt.Sprintf("AddBlock %d (a flush is failing): %v", i, err))
+					}
+					done = append(done, c02Op{K: "blk", N: 1})
+					return true
+				}
+				if op.D > 0 {
+					entered, gate := fs.arm(true, n)
+					res := make(chan error, 1)
+					go func() { _, err := bc.VerifPersistAsTimer(); res <- err }() // as the timer of Run: no block-level lock
+					select {
+					case <-entered:
+						for j := 0; j < op.D; j++ {
+							if addNext() {
+								c02LastFaults.During++
+							}
+						}
+						close(gate)
+						if err := <-res; err == nil {
+							panic("the flush was to fail and did not")
+						}
+						c02LastFaults.Failed++
+						n--
+					case err := <-res:
+						// nothing to flush: the store was not called
+						fs.disarm()
+						if err != nil {
+							panic("persist: " + err.Error())
+						}
+						n = 0
+					case <-time.After(c02GateWait):
+						panic("the flush did not reach the store")
+					}
+				} else {
+					fs.arm(false, n)
+				}
+				for ; n > 0; n-- {
+					if op.B && op.D > 0 || op.B && n < max(1, op.N) {
+						if addNext() {
+							c02LastFaults.Between++
+						}
+					}
+					if _, err := bc.VerifPersistAsTimer(); err == nil {
+						break // nothing to flush
+					}
+					c02LastFaults.Failed++
+				}
+				fs.disarm()
 			case "flush":
 				if _, err := bc.VerifPersist(); err != nil {
 					panic("persist: " + err.Error())
@@ -708,6 +773,12 @@ func c02RunPersistKind(co *caseOut, in c02Input, kind string) error {
 			map[string]any{"snapshots": len(c02LastIB.Snaps), "per_block": steps},
 			fmt.Sprintf("CCache %s %s", c02CoqNtx(ix), coqList(items)))
 	}
+	if kind == "failflush" {
+		f := c02LastFaults
+		tag = fmt.Sprintf("%s%s/failed%d-during%d-between%d", in.Cfg.Backend, map[bool]string{true: "+kols", false: ""}[in.Cfg.KOLS], min(f.Failed, 6), min(f.During, 4), min(f.Between, 3))
+		co.add(kind, tag, f.Failed > 0 && f.During+f.Between > 0 && len(bs) >= 3, in, map[string]any{"ops": done, "batches": len(bs), "faults": f, "recovered": recov}, term)
+		return nil
+	}
 	if kind == "inblock" {
 		tag = fmt.Sprintf("%s/P%d-W%d-M%d", in.Cfg.Backend, min(hits["P"], 3), min(hits["W"], 3), min(hits["M"], 3))
 		co.add(kind, tag, hits["P"] > 0 && hits["W"] > 0 && hits["M"] > 0, in, map[string]any{"ops": done, "batches": len(bs), "in_block_flushes": hits, "recovered": recov}, term)
@@ -1124,6 +1195,59 @@ func c02GenOps(r *rng, nblocks int, gc bool, hdrAhead int) []c02Op {
 	return ops
 }
 
+// c02GenFailFlush: blocks whose writes overlap in both maps of the write cache (the same balances, total supply and
+// fee settings, the tip pointers and, with KeepOnlyLatestState, reference-counted trie nodes that are removed and
+// re-created; whole NEO balances moved away and back: storage items deleted and re-created, in both orders around the
+// failing flush), a failing flush every few blocks with 0-3 blocks stored while it hangs, then flushes that succeed
+func c02GenFailFlush(r *rng, i int) c02Input {
+	cfg := c02Cfg{SRIH: r.bool(), Backend: []string{"mem", "mem", "leveldb", "bolt"}[i%4], KOLS: i%3 == 1}
+	nb := 10 + r.intn(5)
+	h := c02History{Cfg: cfg}
+	for b := 0; b < nb; b++ {
+		var txs []c02Tx
+		if b == 0 {
+			for a := 0; a < c02NAcc; a++ {
+				txs = append(txs, c02Tx{K: "gas", From: -1, To: a, Amt: 2000_0000_0000})
+			}
+			txs = append(txs, c02Tx{K: "neo", From: -1, To: 0, Amt: 1000}, c02Tx{K: "neo", From: -1, To: 1, Amt: 500})
+		} else {
+			txs = append(txs, c02Tx{K: "gas", From: b % 2, To: 2, Amt: int64(1 + r.intn(1000))}) // the same keys in every block
+			if r.chance(60) {
+				txs = append(txs, c02Tx{K: "neoall", From: r.intn(2), To: 2 + r.intn(2)}) // deletes and re-creates items
+			}
+			if r.chance(30) {
+				txs = append(txs, c02Tx{K: "fee", From: -1, Amt: int64(1000 + r.intn(200))})
+			}
+			if r.chance(20) {
+				txs = append(txs, c02Tx{K: "abort", From: r.intn(c02NAcc)})
+			}
+		}
+		h.Blocks = append(h.Blocks, txs)
+	}
+	var ops []c02Op
+	for b := 0; b < nb; {
+		k := 1 + r.intn(2) // blocks before the failing flush (in its batch)
+		ops = append(ops, c02Op{K: "blk", N: k})
+		b += k
+		if r.chance(25) {
+			ops = append(ops, c02Op{K: "hdr", N: 1 + r.intn(2)})
+		}
+		f := c02Op{K: "fail", N: 1 + r.intn(3), B: r.bool()}
+		if r.chance(75) {
+			f.D = 1 + r.intn(3)
+		}
+		ops = append(ops, f)
+		b += f.D + f.N
+		if r.chance(70) {
+			ops = append(ops, c02Op{K: "flush"}) // the successful flush right after
+		} else {
+			ops = append(ops, c02Op{K: "blk", N: 1}, c02Op{K: "flush"})
+			b++
+		}
+	}
+	return c02Input{Cfg: cfg, Blocks: h.Blocks, Ops: ops}
+}
+
 // c02GenInBlock: every block is added with a generated set of in-block flushes; between blocks sometimes nothing is
 // flushed (so that the back-pressure wait has something to wait for), sometimes headers run ahead
 func c02GenInBlock(r *rng, i int) c02Input {
@@ -1217,6 +1341,8 @@ func c02RunCase(co *caseOut, kind string, in c02Input) error {
 		return c02RunResetOrd(co, in)
 	case "inblock":
 		return c02RunPersistKind(co, in, "inblock")
+	case "failflush":
+		return c02RunPersistKind(co, in, "failflush")
 	}
 	return fmt.Errorf("unknown case kind %q", kind)
 }
@@ -1341,6 +1467,18 @@ func runC02(args []string) error {
 		for i := 0; i < n; i++ {
 			if err := c02RunCase(co, "inblock", c02GenInBlock(r, i)); err != nil {
 				return fmt.Errorf("flush inside a block addition %d: %w", i, err)
+			}
+		}
+	}
+	// a flush that FAILS (1-3 times, 0-3 blocks stored while it hangs), then flushes that succeed: every durable prefix
+	if want("failflush") {
+		n := 4
+		if cf.tier == "thorough" {
+			n = 24
+		}
+		for i := 0; i < n; i++ {
+			if err := c02RunCase(co, "failflush", c02GenFailFlush(r, i)); err != nil {
+				return fmt.Errorf("failing flush %d: %w", i, err)
 			}
 		}
 	}
